@@ -231,17 +231,22 @@ fn gen_unamb(g: &mut Gen, kind: i128, year_abs_lt: i128) -> Vec<Item> {
         }
     }
     if time {
-        match g.rng.next() % 4 {
-            0 => fields.push(Item::Field('H', *g.rng.pick(&[1usize, 2, 2]))),
-            1 => fields.push(Item::Field('k', *g.rng.pick(&[1usize, 2]))),
-            2 => { fields.push(Item::Field('h', *g.rng.pick(&[1usize, 2]))); fields.push(Item::Field('a', *g.rng.pick(&[1usize, 3, 4]))); }
-            _ => { fields.push(Item::Field('K', *g.rng.pick(&[1usize, 2]))); fields.push(Item::Field('a', *g.rng.pick(&[2usize, 3, 4]))); }
+        // hour: 24-hour field, 12-hour field with marker, and the partial forms: marker alone, 12-hour field alone, nothing
+        let mut has_hour = true;
+        match g.rng.next() % 8 {
+            0 | 1 => fields.push(Item::Field('H', *g.rng.pick(&[1usize, 2, 2]))),
+            2 => fields.push(Item::Field('k', *g.rng.pick(&[1usize, 2]))),
+            3 => { fields.push(Item::Field('h', *g.rng.pick(&[1usize, 2]))); fields.push(Item::Field('a', *g.rng.pick(&[1usize, 3, 4]))); }
+            4 => { fields.push(Item::Field('K', *g.rng.pick(&[1usize, 2]))); fields.push(Item::Field('a', *g.rng.pick(&[2usize, 3, 4]))); }
+            5 => { has_hour = false; fields.push(Item::Field('a', *g.rng.pick(&[1usize, 3, 4, 5]))); }
+            6 => { has_hour = false; fields.push(Item::Field(*g.rng.pick(&['h', 'K']), *g.rng.pick(&[1usize, 2]))); }
+            _ => { has_hour = false; }
         }
         let (has_m, has_s) = (g.rng.chance(4, 5), g.rng.chance(3, 4));
         if has_m { fields.push(Item::Field('m', *g.rng.pick(&[1usize, 2, 2]))); }
         if has_s { fields.push(Item::Field('s', *g.rng.pick(&[1usize, 2, 2]))); }
-        // noon / midnight depend on minutes and seconds: only with both present
-        if has_m && has_s { for f in fields.iter_mut() { if let Item::Field('a', w) = f { if g.rng.chance(1, 2) { *f = Item::Field('b', *w); } } } }
+        // noon / midnight depend on hour, minutes and seconds: only with all of them present
+        if has_hour && has_m && has_s { for f in fields.iter_mut() { if let Item::Field('a', w) = f { if g.rng.chance(1, 2) { *f = Item::Field('b', *w); } } } }
         if g.rng.chance(1, 2) { fields.push(Item::Field('n', *g.rng.pick(&[1usize, 2, 3, 4, 5]))); }
         if g.rng.chance(2, 3) { fields.push(Item::Field(*g.rng.pick(&['X', 'x']), *g.rng.pick(&[1usize, 2, 3, 4, 5]))); }
     }
@@ -292,6 +297,15 @@ fn grid_c12(g: &mut Gen, now_year: i128) {
     }
     let clocks: [i128; 8] = [0, 999_999_999, 43_199 * NPS + 500_000_000, 43_200 * NPS, 43_200 * NPS + 1, 3_661 * NPS + 7, 13 * 3_600 * NPS + 5 * 60 * NPS + 9 * NPS + 123_456_789, 86_399 * NPS + 999_999_999];
     let offs: [i128; 6] = [0, 3_600, -3_600, 1_800, -45_240, 86_340];
+    // partial time patterns: a marker without an hour field, a 12-hour field without a marker, minutes/seconds alone
+    for &n in clocks.iter() {
+        for w in [1usize, 3, 4, 5] { push(g, 1, vec![n, 0], vec![Item::Field('a', w), lit(' '), Item::Field('m', 2), lit(':'), Item::Field('s', 2)]); }
+        push(g, 1, vec![n, 0], vec![Item::Field('a', 1)]);
+        push(g, 1, vec![n, 3_600], vec![Item::Field('h', 2)]);
+        push(g, 1, vec![n, -3_600], vec![Item::Field('K', 1), lit('|')]);
+        push(g, 1, vec![n, 0], vec![Item::Field('m', 2), lit(':'), Item::Field('s', 2), lit('.'), Item::Field('n', 3)]);
+        push(g, 2, vec![738_000, n, 0], vec![Item::Field('y', 4), lit('-'), Item::Field('M', 2), lit('-'), Item::Field('d', 2), lit(' '), Item::Field('a', 3)]);
+    }
     for (i, &n) in clocks.iter().enumerate() {
         for (c, ws) in [('a', vec![1usize, 3, 4, 5, 6]), ('b', vec![1, 3, 4, 5, 6]), ('h', vec![1, 2, 3]), ('K', vec![1, 2, 3]), ('k', vec![1, 2, 3]), ('H', vec![1, 2, 3]),
                         ('m', vec![1, 2, 3]), ('s', vec![1, 2, 3]), ('n', vec![1, 2, 3, 4, 5, 6]), ('X', vec![1, 2, 3, 4, 5, 6]), ('x', vec![1, 2, 3, 4, 5, 6])] {
